@@ -6,7 +6,7 @@ import clustergen
 ID = "C13"
 DRIVER = "node"
 MODEL_FILES = ["Model/Base.v", "Model/Parse.v", "Model/Node.v", "Model/Cluster.v"]
-THEOREMS = ["C13_arbiter_never_silent", "C13_conflict_notice_text", "C13_conflict_key_neq", "C13_later_writes_queue", "C13_resolve_last", "C13_resolve_pending", "C13_register_arbiter_resends", "C13_record_needs_writable_key", "C13_arbiter_scenario"]
+THEOREMS = ["C13_arbiter_never_silent", "C13_conflict_notice_text", "C13_conflict_key_neq", "C13_later_writes_queue", "C13_resolve_last", "C13_resolve_pending", "C13_register_arbiter_resends", "C13_record_needs_writable_key", "C13_arbiter_scenario", "C13_resolve_queues_lines", "C13_db_resolve_effect", "C13_conflict_queues_lines", "C13_resolve_lines_apply_on_secondary", "C13_resolve_lines_delivered", "C13_conflict_lines_apply_on_secondary", "C13_replica_key_not_marked_refuted", "C13_replica_holds_resolution", "C13_replica_after_resolve", "C13_replica_version", "C13_replica_version_differs", "C13_record_versions_differ", "C13_list_conflicts_keys_iff", "C13_star_key_conflicts_queue", "C13_run_example"]
 STRENGTH = {t: "proof-unbounded" for t in THEOREMS}
 RULE = ("exhaustive sequences (length <= 4 quick / 5 thorough) over {plain write, versioned conflicting / non-conflicting "
         "write on keys k and kk (one name contains the other), arbiter connect, arbiter disconnect, resolve the oldest/newest "
@@ -60,6 +60,23 @@ def finish(ops, arb, nsess, nres):
     ops.append(C(1, "set k after"))
     ops.append(C(3, "arbiter"))
     return ops
+
+
+STAR = {"k": "a*b", "kk": "a*bb"}
+
+
+def star(ops):
+    """the case with the keys k / kk renamed to a*b / a*bb"""
+    out = []
+    for op in ops:
+        if op[0] == "cmd":
+            w = line_of(op).split(" ")
+            if len(w) > 1 and w[1] in STAR and w[0] in ("set", "set-safe", "get-safe", "get"):
+                w[1] = STAR[w[1]]
+            out.append(C(int(op[1]), " ".join(w)))
+        else:
+            out.append(op)
+    return out
 
 
 WRITES = [("w", "set k p"), ("w", "set-safe k 0 c"), ("w", "set-safe k 9 n"), ("w", "set-safe kk 0 d"), ("w", "set kk q"), ("w", "get-safe k")]
@@ -165,7 +182,11 @@ def gen_cases(tier, seed):
             else: seq.append(("rsv", rng.randint(0, 5), "R%d" % rng.randint(0, 9)))
         ops, arb, ns = build(seq)
         cases.append(("r%d" % i, ["P"], finish(ops, arb, ns, n + 1)))
+        if i < nrand // 5:
+            # the same history on keys whose names contain the listing patterns' wildcard
+            cases.append(("s%d" % i, ["P"], star(finish(*build(seq)[:1], arb, ns, n + 1))))
     dist["random"] = nrand
+    dist["star_keys"] = nrand // 5
     return cases, dist
 
 
@@ -175,6 +196,7 @@ def oracle(case, io, mo):
         return cluster_oracle(case, io, mo)
     fails = []
     obs = split_obs(io)
+    K1, K2 = ("a*b", "a*bb") if case[0].startswith("s") else ("k", "kk")
     prev = {}
     arbiters = set()          # sessions registered and not disconnected
     notices = {}              # session -> list of notices received
@@ -218,7 +240,7 @@ def oracle(case, io, mo):
                     fails.append(("arbiter-resend", "step %d: new arbiter got notices for %s, unresolved are %s" % (i, got, want)))
                 if newnotes.get(("stale", sid)):
                     fails.append(("resolved-conflict-resent", "step %d: the registering arbiter was sent %r (records of conflicts that are already resolved)" % (i, newnotes[("stale", sid)])))
-            if w[0] in ("set", "set-safe") and sid == 1 and w[1] in ("k", "kk"):
+            if w[0] in ("set", "set-safe") and sid == 1 and w[1] in (K1, K2):
                 key = w[1]
                 old = prev.get(key)
                 if reply.startswith("Error $$conflitct{20}unresolved{20}"):
@@ -276,7 +298,7 @@ def oracle(case, io, mo):
         prev = keys
     # end of case: finish() resolved everything the last arbiter knew; if nothing is pending the keys must be writable
     if not any(pending.values()):
-        for key in ("k", "kk"):
+        for key in (K1, K2):
             if key in prev and prev[key][1] == -2:
                 fails.append(("stuck-in-conflict", "end: key %s still marked in conflict with nothing pending" % key))
         recs = [k for k, v in prev.items() if k.startswith("$conflicts_") and v[0].startswith("resolve ") and v[2] != "D"]
